@@ -114,6 +114,7 @@ func (w *World) Converge(ns, name string, pendingChanges int) ConvergeResult {
 	step := freq + time.Second
 	before := w.podRSWrites
 	quiet := 0
+	alt := "" // second acceptable live template once the canary was seen failed during the phase
 	for res.Rounds < res.Bound+3 {
 		w0 := w.podRSWrites
 		if mr := w.Round(step); mr > step {
@@ -134,11 +135,15 @@ func (w *World) Converge(ns, name string, pendingChanges int) ConvergeResult {
 				res.Resolution = "promoted-or-no-canary"
 			}
 		}
-		if l2, failed := w.liveAfterFailure(ns, name, live); failed && l2 != live {
+		if l2, failed := w.liveAfterFailure(ns, name, live); failed && l2 != live && alt == "" {
 			// the canary failed by itself during the phase (restarts left over from the hostile part):
-			// "the previously active template after a canary failure"
-			live = l2
-			res.Resolution = "auto-failed-during-phase"
+			// "the previously active template after a canary failure" - unless it was also validated
+			// explicitly (the either corner of C05/C07): both outcomes are accepted from here on
+			alt = l2
+			res.Resolution += "+auto-failed-during-phase"
+		}
+		if alt != "" && w.finalOK(ns, name, live) != "" && w.finalOK(ns, name, alt) == "" {
+			live, alt = alt, live
 		}
 		if w.podRSWrites == w0 && w.finalOK(ns, name, live) == "" {
 			quiet++
